@@ -355,6 +355,10 @@ Restart(graceful) ==
    (a reorg of the head, an append, an L1 head update).  The handlers take no snapshot, so the
    property can only demand that the answer is the right one for ONE of the chains the node held
    during the call: allowed[i] is the answer in the i-th of those states (1 = when the call started).
+   C08 itself quantifies over stored chains, not over schedules: the replayer REPORTS an in-flight
+   answer outside `allowed` as an observation (it is not a verdict); what it judges is that every
+   version, asked again once the mutators are done, answers for the last state exactly (nothing a
+   torn read computed may stick), and that no request hangs.
    The buckets afterwards are those of the last state (what Store / Revert leave behind, cf.
    IndexesDescribeChain, which TLC keeps checking across this composite step). *)
 RevertMut == [name |-> "Revert", v |-> -1, n |-> -1]
@@ -412,6 +416,8 @@ MutSeqs ==
   \cup {<<RevertMut, StoreMut(v)>> : v \in Variants}
   \cup {<<RevertMut, StoreMut(v), L1Mut(n)>> : v \in Variants, n \in Nums}
   \cup {<<RevertMut, RevertMut, StoreMut(v), StoreMut(w)>> : v \in Variants, w \in Variants}
+  \* fork away and (for w = the original variant) back again while the request is in flight
+  \cup {<<RevertMut, StoreMut(v), RevertMut, StoreMut(w)>> : v \in Variants, w \in Variants}
 
 (* one action per read method; the database is untouched *)
 Read(a) == /\ act' = a /\ res' = IRes(a) /\ want' = DWant(a) /\ UNCHANGED dbvars
